@@ -376,7 +376,7 @@ Lemma vec_opts_ok d ro :
   hist_bounds (hist_buckets_for d ro) <> Panic /\ (summ_max_age_for d ro <? 0)%Z = false.
 Proof.
   intros Hd Hr. unfold defaults_valid in Hd. apply andb_true_iff in Hd as [Hb Hs].
-  unfold summary_ok in Hs. apply andb_true_iff in Hs as [_ Hage].
+  unfold summary_ok in Hs. apply andb_true_iff in Hs as [_ Hage]. apply andb_true_iff in Hage as [Hage _].
   split.
   - apply hist_bounds_ok. unfold hist_buckets_for. destruct ro as [ru|]; [|exact Hb].
     specialize (Hr ru eq_refl). unfold rule_valid in Hr.
@@ -388,7 +388,7 @@ Proof.
     destruct (ru_summary ru) as [s|]; [|lia].
     apply andb_true_iff in Hr as [Hr _]. apply andb_true_iff in Hr as [Hr _].
     apply andb_true_iff in Hr as [Hr _]. apply andb_true_iff in Hr as [_ Hr].
-    unfold summary_ok in Hr. apply andb_true_iff in Hr as [_ Hr]. lia.
+    unfold summary_ok in Hr. apply andb_true_iff in Hr as [_ Hr]. apply andb_true_iff in Hr as [Hr _]. lia.
 Qed.
 
 (* ---------- labels answered by an uncached lookup ---------- *)
